@@ -126,6 +126,11 @@ fn build_inner(uid: Uid, spec: &SourceSpec, s: &mut Src, dup_of: Option<i32>, gi
             s.fds.push(child);
             Inner::Gen(Generic::new(fdx, interest(*int), mode(*md)))
         }
+        Kind::Raw => {
+            let (fdx, child) = new_child(FdKind::Eventfd, Int::Read, Md::Level);
+            s.fds.push(child);
+            Inner::Raw(fdx)
+        }
         Kind::Exec => {
             let (ex, sched) = executor::<u64>().expect("executor");
             s.sched = Some(sched);
@@ -320,7 +325,10 @@ fn insert_inner(spec: &SourceSpec, ctx: Ctx, given: Option<(FdX, Option<OwnedFd>
                 if !expected_to_fail(&spec) {
                     w.harness_fault = Some(format!("insertion of #{} failed without an injected fault: {}", uid, e));
                 }
-                check_as_if_not_made(w, &format!("failed insertion of #{} ({})", uid, e), &before, &after);
+                // (a source that fails late without undoing its own registrations left them there itself)
+                if !spec.fault.map(|f| f.sloppy && !f.before).unwrap_or(false) {
+                    check_as_if_not_made(w, &format!("failed insertion of #{} ({})", uid, e), &before, &after);
+                }
                 w.tr(|| format!("  insertion of #{} failed: {}", uid, e));
             }
         }
